@@ -41,17 +41,21 @@ type Program struct {
 }
 
 type Fault struct {
-	Kind   string `json:"kind"` // none | op | await | starve | pc | pcslow | pcdelay | mappc | mappcslow
+	Kind   string `json:"kind"` // none | op | await | starve | slowres | pc | pcslow | pcdelay | mappc | mappcslow
 	Label  int    `json:"label"`
 	Pos    int    `json:"pos"`
 	Repeat int    `json:"repeat"`
+	Pos2   int    `json:"pos2,omitempty"` // Repeat == 2: the second consecutive failure is a refused operation before op Pos2 (<= Pos)
 }
 
 func (f Fault) String() string {
 	if f.Kind == "none" {
 		return "none"
 	}
-	return fmt.Sprintf("%s@l%d.%d x%d", f.Kind, f.Label, f.Pos, f.Repeat)
+	if f.Repeat == 2 {
+		return fmt.Sprintf("%s@l%d.%d then op@l%d.%d", f.Kind, f.Label, f.Pos, f.Label, f.Pos2)
+	}
+	return fmt.Sprintf("%s@l%d.%d", f.Kind, f.Label, f.Pos)
 }
 
 func (o Op) shape() string {
@@ -205,27 +209,44 @@ func genOp(rng *rand.Rand, res []string, protos map[string]*resInst, prev []Op, 
 // faultsFor enumerates every fault position of a program completely.
 func faultsFor(rng *rand.Rand, p Program, protos map[string]*resInst) []Fault {
 	fs := []Fault{{Kind: "none", Repeat: 0}}
-	rep := func() int {
-		if rng.Intn(4) == 0 {
-			return 2
+	mk := func(kind string, l, k int) Fault {
+		f := Fault{Kind: kind, Label: l, Pos: k, Repeat: 1}
+		if rng.Intn(4) == 0 { // a second consecutive failure, at the same or an earlier position
+			f.Repeat = 2
+			f.Pos2 = rng.Intn(k + 1)
 		}
-		return 1
+		return f
 	}
 	for l, lab := range p.Labels {
 		for k := 0; k <= len(lab.Ops); k++ {
-			fs = append(fs, Fault{Kind: "op", Label: l, Pos: k, Repeat: rep()})
-			fs = append(fs, Fault{Kind: "await", Label: l, Pos: k, Repeat: rep()})
+			fs = append(fs, mk("op", l, k), mk("await", l, k))
 		}
 		for k, op := range lab.Ops {
 			if opReadsStarvable(op, protos) {
 				fs = append(fs, Fault{Kind: "starve", Label: l, Pos: k, Repeat: 1})
 			}
+			if opOnSlowable(op, protos) {
+				fs = append(fs, Fault{Kind: "slowres", Label: l, Pos: k, Repeat: 1})
+			}
 		}
 		for _, kind := range []string{"pc", "pcslow", "pcdelay", "mappc", "mappcslow"} {
-			fs = append(fs, Fault{Kind: kind, Label: l, Pos: len(lab.Ops), Repeat: rep()})
+			fs = append(fs, mk(kind, l, len(lab.Ops)))
 		}
 	}
 	return fs
+}
+
+func opOnSlowable(op Op, protos map[string]*resInst) bool {
+	if op.Kind == "choice" {
+		for _, a := range op.Alts {
+			if opOnSlowable(a, protos) {
+				return true
+			}
+		}
+		return false
+	}
+	ri := protos[op.Res]
+	return ri != nil && ri.slowable
 }
 
 func opReadsStarvable(op Op, protos map[string]*resInst) bool {
@@ -311,20 +332,21 @@ type caseRun struct {
 	usedOut    map[string]bool
 
 	// results
-	viol         []violation
-	hist         []string
-	aborts       int
-	commits      int
-	spurious     int
-	nontrivial   bool
-	failedKinds  map[string]bool
-	kindsTouched map[string]bool
-	overlaps     int
+	viol            []violation
+	hist            []string
+	aborts          int
+	commits         int
+	spurious        int
+	nontrivial      bool
+	failedKinds     map[string]bool
+	kindsTouched    map[string]bool
+	overlaps        int
+	overlapRes      map[string]int
 	lateCompletions int
-	harnessErrs  []string
-	gaveUp       string
-	starveNA     bool
-	failedSigs   []string
+	harnessErrs     []string
+	gaveUp          string
+	starveNA        bool
+	failedSigs      []string
 }
 
 var errHard = errors.New("secdrv: case stopped")
@@ -342,8 +364,15 @@ func (cr *caseRun) violate(kind, symptom, format string, a ...any) {
 	}
 	desc := fmt.Sprintf(format, a...)
 	key := fmt.Sprintf("C01:%s:%s:%s", kind, symptom, when)
-	if strings.HasPrefix(symptom, "protocol") || symptom == "no-loud-failure" || symptom == "unexpected-panic" || symptom == "run-error" {
+	switch {
+	case strings.HasPrefix(symptom, "protocol"), symptom == "no-loud-failure", symptom == "unexpected-panic", symptom == "run-error",
+		symptom == "durable-copy-of-indexed-variable-differs", symptom == "shared-variable-left-locked", symptom == "body-panic":
 		key = fmt.Sprintf("C01:%s:%s", kind, symptom)
+	}
+	for _, v := range cr.viol {
+		if v.Key == key {
+			return // one report per key and case
+		}
 	}
 	cr.histf("!! %s: %s", key, desc)
 	if len(cr.viol) < 8 {
@@ -381,7 +410,13 @@ func (cr *caseRun) compareOut(ri *resInst, got []int32, how string) {
 		case len(got) < len(want):
 			sym = "far-end-missing-committed-message"
 		}
-		cr.violate(ri.kind, sym, "%s: %s received %v, committed sections sent %v", ri.name, how, got, want)
+		kind := ri.kind
+		if ri.name == "tcpsub" && cr.w.mapFaultSeen {
+			// the mailbox collection lives under the map whose PreCommit returned before this child's handshake
+			// finished: an abandoned pre-commit exchange can interleave with later sections on the connection
+			kind, sym = "map-precommit-returns-before-siblings-finish", "protocol-crosstalk-on-tcp-remote-child"
+		}
+		cr.violate(kind, sym, "%s: %s received %v, committed sections sent %v", ri.name, how, got, want)
 	}
 	delete(cr.w.mod.OutQ, ri.queue)
 	if cr.trial != nil {
@@ -451,7 +486,7 @@ func (cr *caseRun) checkProtocol(recs []callRec) {
 	}
 	type cnt struct {
 		pc, pcDone, pcErr, commit, commitDone, abort, abortDone, ops int
-		pcSeq, pcDoneSeq, commitSeq, abortSeq                       int64
+		pcSeq, pcDoneSeq, commitSeq, abortSeq                        int64
 	}
 	by := map[string]*cnt{}
 	get := func(n string) *cnt {
@@ -478,6 +513,7 @@ func (cr *caseRun) checkProtocol(recs []callRec) {
 			// completion of a PreCommit issued by an earlier attempt: that attempt was aborted while this
 			// pre-commit was still running
 			cr.lateCompletions++
+			cr.overlapRes[r.Res]++
 			cr.histf("observation: PreCommit of %s issued by an earlier attempt completed during attempt %d", r.Res, cr.attempt)
 			continue
 		}
@@ -563,6 +599,7 @@ func (cr *caseRun) checkProtocol(recs []callRec) {
 			}
 			if c.pc == 1 && c.abort == 1 && (c.pcDone == 0 || c.pcDoneSeq > c.abortSeq) {
 				cr.overlaps++
+				cr.overlapRes[name]++
 				cr.histf("observation: Abort of %s issued while its PreCommit was still in flight", name)
 			}
 		}
@@ -628,6 +665,16 @@ func (cr *caseRun) labelBody(li int) func(iface distsys.ArchetypeInterface) erro
 		}
 		lab := cr.prog.Labels[li]
 		firing := cr.faultLeft > 0 && cr.f.Label == li
+		fkind, fpos := cr.f.Kind, cr.f.Pos
+		if firing && cr.f.Repeat == 2 && cr.faultLeft == 1 {
+			fkind, fpos = "op", cr.f.Pos2
+		}
+		if firing && (fkind == "mappc" || fkind == "mappcslow") {
+			// the child whose PreCommit will fail is indexed first, so the map waits for it before its siblings
+			if _, err := iface.Read(cr.ref(iface, "fmap"), []tla.Value{tla.MakeNumber(0)}); err != nil {
+				return err
+			}
+		}
 		if cr.afterFailure && cr.probeOnRetry {
 			if err := cr.probeCells(iface); err != nil {
 				return err
@@ -636,8 +683,8 @@ func (cr *caseRun) labelBody(li int) func(iface distsys.ArchetypeInterface) erro
 		reads := make([]int32, len(lab.Ops))
 		have := make([]bool, len(lab.Ops))
 		for k := 0; k <= len(lab.Ops); k++ {
-			if firing && cr.f.Pos == k {
-				switch cr.f.Kind {
+			if firing && fpos == k {
+				switch fkind {
 				case "op":
 					cr.faultLeft--
 					return cr.fireOpFault(iface, k)
@@ -668,8 +715,20 @@ func (cr *caseRun) labelBody(li int) func(iface distsys.ArchetypeInterface) erro
 			if op.From > 0 && op.From-1 < k && have[op.From-1] {
 				from = &reads[op.From-1]
 			}
-			starve := firing && cr.f.Kind == "starve" && cr.f.Pos == k
+			starve := firing && fkind == "starve" && fpos == k
+			var slowed *resInst
+			if firing && fkind == "slowres" && fpos == k && cr.faultLeft > 0 {
+				if ri := cr.w.insts[op.Res]; ri != nil && ri.makeSlow != nil {
+					cr.faultLeft--
+					ri.makeSlow(true)
+					slowed = ri
+					cr.histf("  fault: %s made slower than its own timeout for op %d", ri.name, k)
+				}
+			}
 			tok, scalar, err := cr.exec(iface, k, op, from, starve)
+			if slowed != nil {
+				slowed.makeSlow(false)
+			}
 			if err != nil {
 				return err
 			}
@@ -677,7 +736,7 @@ func (cr *caseRun) labelBody(li int) func(iface distsys.ArchetypeInterface) erro
 				reads[k], have[k] = tok, true
 			}
 		}
-		if firing {
+		if firing && fkind == cr.f.Kind {
 			if err := cr.armPreCommitFault(iface); err != nil {
 				return err
 			}
@@ -727,6 +786,7 @@ func (cr *caseRun) armPreCommitFault(iface distsys.ArchetypeInterface) error {
 		}
 	case "mappc", "mappcslow":
 		cr.faultLeft--
+		cr.w.mapFaultSeen = true
 		cr.w.fchild.armPC(1, 0)
 		h := cr.ref(iface, "fmap")
 		if _, err := iface.Read(h, []tla.Value{tla.MakeNumber(0)}); err != nil {
@@ -814,7 +874,7 @@ func (cr *caseRun) exec(iface distsys.ArchetypeInterface, k int, op Op, from *in
 		touched()
 		cr.trial.Cells[ri.key(idx)] = val
 		if ri.persist != "" {
-			cr.trial.Stored[ri.persist] = val
+			cr.trial.Stored[ri.persist] = ri.storedString(cr.trial)
 		}
 		cr.histf("  op %d write %s%s := %d", k, ri.name, fmtIdx(idx), val)
 		return 0, false, nil
@@ -868,6 +928,9 @@ func (cr *caseRun) exec(iface distsys.ArchetypeInterface, k int, op Op, from *in
 		val := cr.fresh()
 		if from != nil {
 			val = *from
+		}
+		if ri.loudOnTouch {
+			cr.sentLoud = true
 		}
 		e := iface.Write(h, ri.idxVals(op.Idx), ri.enc(val))
 		if e != nil {
@@ -1034,27 +1097,28 @@ func (cr *caseRun) markBody() func(iface distsys.ArchetypeInterface) error {
 // ---------------------------------------------------------------- running
 
 type caseResult struct {
-	Prog        int         `json:"prog"`
-	Case        int         `json:"case"`
-	Fault       Fault       `json:"fault"`
-	Attempts    int         `json:"attempts"`
-	Aborts      int         `json:"aborts"`
-	Commits     int         `json:"commits"`
-	Spurious    int         `json:"spurious"`
-	Nontrivial  bool        `json:"nontrivial"`
-	FailedKinds []string    `json:"failed_kinds,omitempty"`
-	FailedSigs  []string    `json:"failed_sigs,omitempty"`
-	Kinds       []string    `json:"kinds,omitempty"`
-	Viol        []violation `json:"viol,omitempty"`
-	Loud        bool        `json:"loud,omitempty"` // ended in the documented panic after a send that cannot be rolled back
-	Panic       string      `json:"panic,omitempty"`
-	GaveUp      string      `json:"gave_up,omitempty"`
-	Harness     []string    `json:"harness,omitempty"`
-	Overlaps    int         `json:"overlaps,omitempty"`
-	StarveNA    bool        `json:"starve_na,omitempty"`
-	Events      int64       `json:"events"`
-	History     []string    `json:"history,omitempty"`
-	WorldDead   bool        `json:"-"`
+	Prog        int            `json:"prog"`
+	Case        int            `json:"case"`
+	Fault       Fault          `json:"fault"`
+	Attempts    int            `json:"attempts"`
+	Aborts      int            `json:"aborts"`
+	Commits     int            `json:"commits"`
+	Spurious    int            `json:"spurious"`
+	Nontrivial  bool           `json:"nontrivial"`
+	FailedKinds []string       `json:"failed_kinds,omitempty"`
+	FailedSigs  []string       `json:"failed_sigs,omitempty"`
+	Kinds       []string       `json:"kinds,omitempty"`
+	Viol        []violation    `json:"viol,omitempty"`
+	Loud        bool           `json:"loud,omitempty"` // ended in the documented panic after a send that cannot be rolled back
+	Panic       string         `json:"panic,omitempty"`
+	GaveUp      string         `json:"gave_up,omitempty"`
+	Harness     []string       `json:"harness,omitempty"`
+	Overlaps    int            `json:"overlaps,omitempty"`
+	OverlapRes  map[string]int `json:"overlap_res,omitempty"`
+	StarveNA    bool           `json:"starve_na,omitempty"`
+	Events      int64          `json:"events"`
+	History     []string       `json:"history,omitempty"`
+	WorldDead   bool           `json:"-"`
 }
 
 func setKeys(m map[string]bool) []string {
@@ -1071,7 +1135,7 @@ var loudPanics = []string{"cannot abort a critical section with a sent message",
 func runCase(w *world, prog Program, ci int, f Fault, rng *rand.Rand, uniq *int32) caseResult {
 	cr := &caseRun{w: w, prog: prog, f: f, rng: rng, uniq: uniq, faultLeft: f.Repeat,
 		probeOnRetry: rng.Intn(2) == 0, failedKinds: map[string]bool{}, kindsTouched: map[string]bool{},
-		markersIn: map[string]int32{}, markersOut: map[string]int32{}, usedOut: map[string]bool{}}
+		overlapRes: map[string]int{}, markersIn: map[string]int32{}, markersOut: map[string]int32{}, usedOut: map[string]bool{}}
 	if f.Kind == "none" {
 		cr.faultLeft = 0
 	}
@@ -1177,6 +1241,7 @@ func runCase(w *world, prog Program, ci int, f Fault, rng *rand.Rand, uniq *int3
 	res.Viol = cr.viol
 	res.Harness = cr.harnessErrs
 	res.Overlaps = cr.overlaps + cr.lateCompletions
+	res.OverlapRes = cr.overlapRes
 	res.StarveNA = cr.starveNA
 	res.Events = w.rec.total - evBefore
 	if len(cr.viol) > 0 || len(cr.harnessErrs) > 0 || res.GaveUp != "" {
@@ -1185,8 +1250,8 @@ func runCase(w *world, prog Program, ci int, f Fault, rng *rand.Rand, uniq *int3
 			res.History = append([]string{"…"}, res.History[len(res.History)-120:]...)
 		}
 	}
-	if len(cr.harnessErrs) > 0 {
-		res.WorldDead = true
+	if len(cr.harnessErrs) > 0 || len(cr.viol) > 0 {
+		res.WorldDead = true // model and reality have diverged: do not let one defect cascade into later cases
 	}
 	return res
 }
